@@ -272,13 +272,19 @@ structure FnFacts where
   mutableDefaults : Nat
   /-- `return` statements that are not the last statement of the body -/
   earlyReturns : Nat
+  /-- reads of ambient interpreter / torch state (`torch.is_autocast_enabled`, `is_grad_enabled`, `get_default_dtype`,
+  `is_inference_mode_enabled`, `are_deterministic_algorithms_enabled`, `torch.backends.*`, `os.environ`, …), in the function
+  or in a private helper of the module that it (transitively) calls; `globals`, `foreignStores`, `inplace` also include
+  those helpers -/
+  ambient : Nat
 deriving DecidableEq, Repr
 
-/-- no state kept across calls, no in-place update of an argument, no early exit that skips the plan (the one
+/-- no state kept across calls, no in-place update of an argument, no dependence on an ambient mode (autocast, grad mode,
+default dtype, backend flags), no early exit that skips the plan (the one
 early `return data` of `roll_one_dim` for a zero shift is part of the model: `rollOne`) -/
 def FnFacts.pure (f : FnFacts) : Bool :=
   f.globals == 0 && f.foreignStores == 0 && f.inplace == 0 && f.decorators == 0 && f.mutableDefaults == 0 &&
-  f.earlyReturns == (if f.fn == .rollOneDim then 1 else 0)
+  f.earlyReturns == (if f.fn == .rollOneDim then 1 else 0) && f.ambient == 0
 
 /-- a call of `fft2` / `ifft2` (directly, or through a `forward_operator` / `backward_operator` handle) somewhere under
 `direct/`: the axis tuples the `dim` argument can evaluate to (literals, or the `_spatial_dims` literals of the same
